@@ -11,7 +11,7 @@ from bec2format.hwcids import HWCID_MAP
 from bec2format.error import Bf3FileFormatError
 
 LEVEL = "exploration"
-RULE = ("E1/E2 over a BF2 generator: ('blob', type, size, line size, grouping) every image size 1..300 x line sizes {1,16,250} plus page crossings "
+RULE = ("E1/E2 over a BF2 generator: ('blob', type, size, line size, grouping) every image size 1..300 x line sizes {1,16,250}, the maximal line sizes 251/252, lines with trailing checksum bytes, plus page crossings "
         "{65535,65536,65537,131072,200000}, one group per page and single group; ('gap', lines, at, kind) a gap / overlap / non-zero start at "
         "EVERY line index of images of 1..8 lines; ('compat', ...) BF2-compatible sections incl. trailing checksum bytes; ('types', t) every tag "
         "type 0x30..0xA8 as section start; ('instr', i) instruction variants (release/debug versions, SELECT special cases / 01 01 hhhh / invalid, "
@@ -94,6 +94,12 @@ def cases(ctx):
     for size in range(1, 301):
         for ls in (1, 16, 250):
             yield ("blob", 0x35, size, ls, "page")
+    for size in (1, 251, 252, 253, 504, 505, 1000):
+        for ls in (251, 252):
+            yield ("blob", 0x35, size, ls, "page")
+            yield ("blobx", 0x3D, size, ls, "single")
+    for size in range(1, 41):
+        yield ("blobx", 0x35, size, 7, "page")
     for size in (65535, 65536, 65537, 131072, 200000):
         for grouping in ("page", "single"):
             yield ("blob", 0x35, size, 250, grouping)
@@ -218,10 +224,13 @@ def check_filter_equiv(o, f, expr, what):
 def run_case(ctx, case):
     kind = case[0]
     o = Outcome("ok", True)
-    if kind in ("blob", "compat"):
+    if kind in ("blob", "compat", "blobx"):
         _, t, size, ls, grouping = case
         img = image(ctx, "img-%d" % size, size)
-        lines = B.image_lines(t, img, ls, extra=(b"\xC5" if kind == "compat" else b""))
+        # 'blobx': blob lines that carry trailing bytes after the tag (e.g. a line checksum), which must not become payload
+        lines = B.image_lines(t, img, ls, extra=(b"\xC5" if kind == "compat" else b"\x5A\xA5" if kind == "blobx" else b""))
+        if kind == "blobx":
+            kind = "blob"
         groups = B.groups_per_page(lines) if grouping == "page" else [("group", lines)]
         evs = list(HEAD)
         if t in (0x70, 0x83):
